@@ -5,6 +5,6 @@ CONSTANTS
   MaxMetrics = 4
   Lens = {1, 3, 6}
   Bug = "none"
-INVARIANTS Framing NoDupNoAlien EndToEnd FlushEmpties
+INVARIANTS Framing NoDupNoAlien EndToEnd FlushEmpties HandOverOrder
 PROPERTY Eventually
 CHECK_DEADLOCK FALSE
